@@ -488,10 +488,14 @@ class FakeBleClient:
         if not self.is_connected:
             return
         if self.disconnect_fails:
-            # the stack itself is gone (dead D-Bus socket ...): the call fails and no disconnected callback is ever delivered
-            self.is_connected = False
-            self.acc.reset_link()
-            raise BleakError("simulated: disconnect failed")
+            # the stack itself is gone (dead D-Bus socket ...): the call fails and no disconnected callback is ever delivered.
+            # disconnect_fails may name the exception the stack raises (any member of bleak-retry-connector's retry set) and say
+            # whether the link still reports connected afterwards (a disconnect that timed out)
+            exc, alive = self.disconnect_fails if isinstance(self.disconnect_fails, tuple) else (BleakError, False)
+            if not alive:
+                self.is_connected = False
+                self.acc.reset_link()
+            raise exc("simulated: disconnect failed")
         if self.disconnect_delay:
             await asyncio.sleep(self.disconnect_delay)      # a real disconnect takes a while; GATT operations in flight still complete
             if not self.is_connected:
